@@ -753,6 +753,13 @@ def check_C12(tier, seed):
         add('(append %s)' % ' '.join(lit(x) for x in args), (lambda args=args: L.append(*args)))
         if not any(isinstance(x, Dot) for x in args):
             add('(equal (length (append %s)) (+ %s))' % (' '.join(lit(x) for x in args), ' '.join('(length %s)' % lit(x) for x in args)), None)
+    # the first argument of append may be a fresh cons onto a list that is still in use
+    for _ in range(tier_n(tier, 100, 2000)):
+        a = rng.choice([l for l in lists if isinstance(l, list) and l])
+        b = rng.choice([l for l in lists if not isinstance(l, Dot)])
+        add("(let ((a %s)) (list (append (cons 0 a) %s) a (length a) (append (cons 0 a) %s) a))" % (lit(a), lit(b), lit(b)),
+            (lambda a=a, b=b: [L.append([0] + a, b), a, len(a), L.append([0] + a, b), a]))
+        add("(let ((a %s)) (equal (length (append (cons 0 a) a)) (+ 1 (length a) (length a))))" % lit(a), (lambda: True))
     # alists / plists
     keys = ['a', 'b', 1, 2, Str('k'), [1]]
     for _ in range(tier_n(tier, 600, 12000)):
